@@ -230,8 +230,19 @@ class VecV:
 
 
 class IterV:
-    """slice iterator (optionally enumerated)"""
-    __slots__ = ("items", "idx", "enum")
+    """slice / vector / map iterator (optionally enumerated, optionally yielding owned values)"""
+    __slots__ = ("items", "idx", "enum", "owned", "base")
 
-    def __init__(self, items, idx=0, enum=False):
-        self.items, self.idx, self.enum = items, idx, enum
+    def __init__(self, items, idx=0, enum=False, owned=False, base=0):
+        self.items, self.idx, self.enum, self.owned, self.base = items, idx, enum, owned, base
+
+
+class MapC:
+    """a BTreeMap with concrete string keys (session variables): sorted python dict semantics"""
+    __slots__ = ("d",)
+
+    def __init__(self, d=None):
+        self.d = dict(d or {})
+
+    def __repr__(self):
+        return "MapC%r" % (sorted(self.d),)
